@@ -11,6 +11,7 @@ A = viewops.A
 
 EXTRA = r"""
 #include <complex>
+#include <functional>
 #include <boost/multi/adaptors/blas/numeric.hpp>
 struct S3 { double x; double y; double z; };
 struct C2 { double re; double im; };
@@ -23,9 +24,10 @@ def mk(D):
     return "mk%d(%s)" % (D, ", ".join("s%d, o%d, n%d" % (k, k, k) for k in range(D)))
 
 
-def items(D):
-    """(name, element type of the source, C++ expression on `v`, result spec, element bytes of result, byte offset, extra args, cases)"""
-    v = vs.root(D, True)
+def items(D, zb=True):
+    """(name, element type of the source, C++ expression on `v`, result spec, element bytes of result, byte offset, extra args, cases)
+    zb: zero-based source view (all first indices 0) or a source view with symbolic index bases"""
+    v = vs.root(D, zb)
     IDX = [A("i%d" % k) for k in range(5)]
     out = []
 
@@ -49,6 +51,11 @@ def items(D):
     # element_transformed with a reference-returning projection
     out.append(("element_transformed(->y)", "S3", "v.element_transformed(+[](S3& s) -> double& { return s.y; })", v, 24, 8, None))
     out.append(("const element_transformed(->y)", "S3", "std::as_const(v).element_transformed(+[](S3 const& s) -> double const& { return s.y; })", v, 24, 8, None))
+    # ... and with the other spellings of a projection onto a member (pointer to data member, std::mem_fn)
+    out.append(("element_transformed(&S3::y)", "S3", "v.element_transformed(&S3::y)", v, 24, 8, None))
+    out.append(("element_transformed(mem_fn(&S3::z))", "S3", "v.element_transformed(std::mem_fn(&S3::z))", v, 24, 16, None))
+    out.append(("const element_transformed(&S3::x)", "S3", "std::as_const(v).element_transformed(&S3::x)", v, 24, 0, None))
+    out.append(("sliced(a,a+w).element_transformed(&S3::y)", "S3", "v.sliced(a, a + w).element_transformed(&S3::y)", vs.sliced(v, A("a"), A("w")), 24, 8, None))
     # blas real / imag
     out.append(("blas::real", "cplx", "multi::blas::real(v)", v, 16, 0, 2))
     out.append(("blas::imag", "cplx", "multi::blas::imag(v)", v, 16, 8, 2))
@@ -65,6 +72,7 @@ W12_PRE = r"""
 #include <boost/multi/array.hpp>
 #include <boost/multi/adaptors/blas/numeric.hpp>
 #include <complex>
+#include <functional>
 #include <type_traits>
 #include <utility>
 namespace multi = boost::multi;
@@ -126,15 +134,17 @@ def raw_body(et, D, expr):
     return ("auto* sb = reinterpret_cast<%s*>(base); multi::subarray<%s, %d> v(%s, sb); observe(%s, base, out, i0, i1, i2, i3, i4);" % (et, et, D, mk(D), expr))
 
 
-def add_cast_items(cr, maxd, fam="O12.cast", pre="O12", mkbody=raw_body, only=None):
+def add_cast_items(cr, maxd, fam="O12.cast", pre="O12", mkbody=raw_body, only=None, zb=True):
     """adds the projection obligations for D = 1..maxd to a CustomRun; mkbody(element type, D, expression) gives the driver body (the pointer type of the
     source view is the caller's choice: C11 instantiates the same table over a fancy pointer); only: predicate on (item name, D)"""
     idxargs = ["i0", "i1", "i2", "i3", "i4"]
     IDX = [A(i) for i in idxargs]
     for D in range(1, maxd + 1):
-        for name, et, expr, want, eb, off, scale in items(D):
+        for name, et, expr, want, eb, off, scale in items(D, zb):
             if only is not None and not only(name, D):
                 continue
+            if not zb and "strided(t)" in expr:
+                continue   # strided of a source with a non-zero index base: outside the statement (see DESIGN 10.3, observed)
             if D == 1 and ("as_const()" in expr or "const_array_cast" in expr):
                 continue   # the 1-D const_subarray specialisation has no as_const()/const_array_cast() members
             args = list(idxargs)
@@ -150,7 +160,7 @@ def add_cast_items(cr, maxd, fam="O12.cast", pre="O12", mkbody=raw_body, only=No
                 args += ["t"]
                 cases = [{"z0": A("t") * A("m")}]
                 signs.update({"t": POS, "m": POS})
-                want = vs.strided(vs.root(D, True).subst(cases[0]), A("t"))
+                want = vs.strided(vs.root(D, zb).subst(cases[0]), A("t"))
             body = mkbody(et, D, expr)
             # expected: same index map as `want` (in units of the source element), bytes = eb per source element + member offset;
             # extents unchanged; strides of the result are measured in result elements: stride*scale
@@ -174,13 +184,13 @@ def add_cast_items(cr, maxd, fam="O12.cast", pre="O12", mkbody=raw_body, only=No
                           ("std::move(v).reinterpret_array_cast<double>(2)", "rvalue reinterpret_array_cast<double>(2)"),
                           ("v().reinterpret_array_cast<double>(2)", "temporary view .reinterpret_array_cast<double>(2)"),
                           ("multi::blas::real_doubled(v)", "blas::real_doubled")):
-            v = vs.root(D, True)
+            v = vs.root(D, zb)
             if "real_doubled" in nm:
                 if D != 2:
                     continue   # the rotated().flatted().unrotated() construction is only the stated map for D == 2 (see DESIGN: observed, outside the statement)
                 # real_doubled: last dimension doubled, interleaved: result[...][2*j + k] = part k of source[...][j]
                 last = v.dims[-1]
-                wv = vs.SymView(v.b * 2, [vs.Dim(d.s * 2, d.f, d.z) for d in v.dims[:-1]] + [vs.Dim(P.const(1) * last.s if False else last.s, last.f * 2, last.z * 2)])
+                wv = vs.SymView(v.b * 2, [vs.Dim(d.s * 2, d.f, d.z) for d in v.dims[:-1]] + [vs.Dim(last.s, P.const(0), last.z * 2)])   # flatted(): the merged dimension takes the index base of the inner one, the [0, 2) pair
                 # address in doubles: sum_k (i_k - f_k)*2*s_k for leading dims + for the last: (j - 2 f)*s where consecutive pairs belong to one
                 # complex: only valid when the last source stride is 1 (flattable precondition s_last = 1): substitute
                 cases = [{"s%d" % (D - 1): P.const(1)}]
@@ -216,6 +226,9 @@ def run(tier):
     maxd = 3 if tier == "thorough" else 2
     cr = viewops.CustomRun(rep, "C12", True, wd, "p")
     add_cast_items(cr, maxd)
+    # the same table on source views with symbolic (non-zero) index bases
+    cr2 = viewops.CustomRun(rep, "C12", False, wd, "r")
+    add_cast_items(cr2, maxd, fam="O12.cast.based", pre="O12b", zb=False)
     nw = w12(rep, wd, (1, 2) if tier == "quick" else (1, 2, 3))
     rep.need_instances("W12 witnesses", nw, 12)
     try:
@@ -224,6 +237,12 @@ def run(tier):
         rep.break_(str(e)[:600])
         return rep
     cr.check()
+    try:
+        cr2.compile(nshards=8, extra_prelude=EXTRA)
+        cr2.check()
+    except common.AnalysisBroken as e:
+        rep.break_(str(e)[:600])
+        return rep
     rep.need_instances("O12 obligations generated", len(rep.obligations), 250 if tier == "quick" else 500)
     rep.trusted = ["clang 14 IR generation and -O2 pipeline (normaliser)", "vlib/viewspec.py + the projection table in checks/c12.py",
                    "vlib/poly.py + vlib/irval.py", "struct layouts S3{double x,y,z}, C2{double,double}, std::complex<double> (x86-64 ABI)"]
